@@ -37,7 +37,7 @@ func (s *classifySlice) exec(t []string) string {
 	case "cfg":
 		s.handle, s.abort = t[1], t[2]
 		return ""
-	case "o":
+	case "o", "oh":
 		val := int(atoi(t[1]))
 		err := parseErrTree(t[2])
 		fn := func() (int, error) { return val, err }
@@ -77,16 +77,20 @@ func (s *classifySlice) exec(t []string) string {
 			rp = "F1A0"
 		}
 
-		hpB := hedgepolicy.BuilderWithDelay[int](time.Millisecond).WithMaxHedges(1)
-		applyConds(s.abort, func(e error) { hpB.CancelOnErrors(e) }, func(a any) { hpB.CancelOnErrorTypes(a) }, func(r int) { hpB.CancelOnResult(r) }, func(p func(int, error) bool) { hpB.CancelIf(p) })
-		hedged := false
-		hpB.OnHedge(func(failsafe.ExecutionEvent[int]) { hedged = true })
-		failsafe.Get(func() (int, error) { return val, err }, hpB.Build())
-		hp := 1
-		if hedged {
-			hp = 0
+		hp := "-"
+		if t[0] == "oh" {
+			// the hedge delay must comfortably exceed the time an instant attempt needs to deliver its result
+			hpB := hedgepolicy.BuilderWithDelay[int](20 * time.Millisecond).WithMaxHedges(1)
+			applyConds(s.abort, func(e error) { hpB.CancelOnErrors(e) }, func(a any) { hpB.CancelOnErrorTypes(a) }, func(r int) { hpB.CancelOnResult(r) }, func(p func(int, error) bool) { hpB.CancelIf(p) })
+			hedged := false
+			hpB.OnHedge(func(failsafe.ExecutionEvent[int]) { hedged = true })
+			failsafe.Get(func() (int, error) { return val, err }, hpB.Build())
+			hp = "1"
+			if hedged {
+				hp = "0"
+			}
 		}
-		return fmt.Sprintf("fb=%d cb=%d cr=%d rp=%s hp=%d", fbApplied, cbFail, crFail, rp, hp)
+		return fmt.Sprintf("fb=%d cb=%d cr=%d rp=%s hp=%s", fbApplied, cbFail, crFail, rp, hp)
 	}
 	return "bad-op"
 }
@@ -161,7 +165,11 @@ func genClassify(r *rand.Rand, n int, tier string, emit func(string) string) {
 			if r.Intn(3) != 0 {
 				e = genErrTree(r, 3, map[int]bool{})
 			}
-			emit(fmt.Sprintf("classify o %d %s", r.Intn(3), e))
+			op := "o"
+			if r.Intn(5) == 0 {
+				op = "oh"
+			}
+			emit(fmt.Sprintf("classify %s %d %s", op, r.Intn(3), e))
 		}
 	}
 }
